@@ -908,6 +908,11 @@ def suppress(ctx: Any) -> List[Ob]:
             o.rule = R
             o.statement = 'the known-answer table is a hash table: equal records must hash equal, else an equal known answer is not found and nothing is suppressed'
             obs.append(o)
+    # the TTL a known answer is judged by is the TTL the querier sent: the decoder hands the frame fields on unchanged (a floor or
+    # clamp applied while parsing would make a half-expired known answer look fresh and suppress the reply)
+    from .c01 import frame_locals_obligations
+
+    obs.extend(frame_locals_obligations(ctx, R))
     # `minus records the querier lists as known answers`: wherever the query handler asks whether a record is suppressed, the
     # record is offered on exactly the paths where the answer was no -- decision table per site over (suppressed?)
     qh = prog.cls('zeroconf._handlers.query_handler.QueryHandler')
